@@ -609,6 +609,10 @@ type pathGen struct {
 	cur     interface{}
 	aware   bool
 	members []interface{}
+	// rootPath: the text of the path so far while it is single-valued and follows the target
+	// document ("" otherwise); memberSel[i]: the child selector of members[i] below it
+	rootPath  string
+	memberSel []string
 }
 
 func literalOf(v interface{}) (string, bool) {
@@ -658,7 +662,8 @@ func (g *pathGen) awareComparison() (string, bool) {
 	if len(g.members) == 0 {
 		return "", false
 	}
-	m := g.members[rn(len(g.members))]
+	mi := rn(len(g.members))
+	m := g.members[mi]
 	at := "@"
 	var v interface{} = m
 	if mm, ok := m.(map[string]interface{}); ok {
@@ -679,6 +684,41 @@ func (g *pathGen) awareComparison() (string, bool) {
 		i := rn(len(a))
 		at += "[" + strconv.Itoa(i) + "]"
 		v = a[i]
+	}
+	if arr, isArr := v.([]interface{}); isArr && len(arr) > 0 && !g.noFuncs && chance(40) {
+		// the member (or the field looked at) is an array: an aggregate over its elements,
+		// selected by each multi-valued step kind, compared with what the first (last)
+		// element really is
+		if aggs := g.registered(true); len(aggs) > 0 {
+			f := aggs[rn(len(aggs))]
+			sel := pick([]string{"[*]", ".*", "[*,*]", "[*,*,*]", "[0,1]", "[0:]", "[::-1]", "[*,0]"})
+			el := arr[0]
+			if sel == "[::-1]" {
+				el = arr[len(arr)-1]
+			}
+			if lit, ok := literalOf(el); ok {
+				g.spec.UsesFuncs |= 1 << uint(f)
+				op := pick([]string{"==", "!=", "==", "<=", ">="})
+				if _, num := el.(float64); !num {
+					if _, num = el.(json.Number); !num {
+						op = pick([]string{"==", "!="})
+					}
+				}
+				return at + sel + "." + funcNames[f] + "()" + sp() + op + sp() + lit, true
+			}
+		}
+	}
+	if g.rootPath != "" && len(g.memberSel) == len(g.members) && at != "@" && chance(20) {
+		// against the very same field of one member, reached from the root: true for some
+		// members and false for that one (or the other way round) whatever the leaves hold
+		op := pick([]string{"==", "!=", "!=", "<", ">="})
+		rp := g.rootPath + g.memberSel[mi] + at[1:]
+		g.spec.BothMissingEQ = g.spec.BothMissingEQ || op == "==" || op == "!="
+		if chance(40) {
+			g.spec.LiteralLeft = true
+			return rp + sp() + op + sp() + at, true
+		}
+		return at + sp() + op + sp() + rp, true
 	}
 	lit, ok := literalOf(v)
 	if !ok {
@@ -747,8 +787,12 @@ func (g *pathGen) awareStep() (text string, single bool, ok bool) {
 			return ".." + k, false, true
 		default:
 			g.members = membersOf(t)
+			g.memberSel = g.memberSel[:0]
+			for _, k := range keys {
+				g.memberSel = append(g.memberSel, "["+quoteName(k, false)+"]")
+			}
 			q := g.query(2)
-			g.members = nil
+			g.members, g.memberSel = nil, nil
 			g.cur = t[keys[0]]
 			return "[?(" + sp() + q + sp() + ")]", false, true
 		}
@@ -784,8 +828,12 @@ func (g *pathGen) awareStep() (text string, single bool, ok bool) {
 			return pick([]string{".*", "[*]"}), false, true
 		default:
 			g.members = t
+			g.memberSel = g.memberSel[:0]
+			for i := range t {
+				g.memberSel = append(g.memberSel, "["+strconv.Itoa(i)+"]")
+			}
 			q := g.query(2)
-			g.members = nil
+			g.members, g.memberSel = nil, nil
 			g.cur = t[0]
 			return "[?(" + sp() + q + sp() + ")]", false, true
 		}
@@ -868,7 +916,8 @@ func (g *pathGen) singlePath(root string) string {
 	if chance(10) {
 		if f, ok := g.anyFunc(); ok {
 			if isAggregate(f) && chance(50) {
-				s += ".*"
+				// the aggregate's parameter ends in a step of any multi-valued kind
+				s += pick([]string{".*", ".*", "[*]", "[*,*]", "[0,1]", "[0:2]", "[::-1]", "['a','b']", "..a", "[*,0]"})
 			}
 			s += "." + funcNames[f] + "()"
 		}
@@ -885,7 +934,7 @@ func (g *pathGen) groupPath(root string, depth int) string {
 	case 1:
 		s += ".." + plainKeys[rn(3)]
 	case 2:
-		s += "[0:2]"
+		s += pick([]string{"[0:2]", "[0:2]", "[::-1]", "[2:0:-1]", "[-1:-3:-1]"})
 	case 3:
 		s += "['a','b']"
 	case 4:
@@ -900,6 +949,10 @@ func (g *pathGen) groupPath(root string, depth int) string {
 		}
 	}
 	return s
+}
+
+func groupSuffix() string {
+	return pick([]string{"[::-1]", "[2:0:-1]", "[-1:-3:-1]", "[::-2]", "[0:2]", "[1:]", "[*]", ".*", "..a", "[0,1]", "['a','b']", "[?(@)]", "[0:2].a", "[::-1].a"})
 }
 
 func sp() string {
@@ -951,6 +1004,15 @@ func (g *pathGen) comparison() string {
 	}
 	if otherIsPath && !ordering {
 		g.spec.BothMissingEQ = true
+	}
+	if chance(4) {
+		// an operand that may select several values: the grammar refuses it in a comparison,
+		// whichever step kind it ends in (each kind carries its own flag)
+		if otherIsPath && chance(60) {
+			other += groupSuffix()
+		} else {
+			at += groupSuffix()
+		}
 	}
 	if chance(35) {
 		g.spec.LiteralLeft = true
@@ -1185,6 +1247,10 @@ func genPathFor(doc interface{}, funcs uint32, trap bool, maxSteps, maxFuncs int
 					continue
 				}
 			}
+		}
+		g.rootPath = ""
+		if g.aware && g.cur != nil && spec.SingleValued && strings.HasPrefix(s, "$") {
+			g.rootPath = s
 		}
 		t, single := g.step()
 		if s == "" && strings.HasPrefix(t, ".") && !strings.HasPrefix(t, "..") {
